@@ -4,6 +4,7 @@ import (
 	"encoding/json"
 	"fmt"
 	"math/big"
+	"sort"
 
 	"github.com/atombender/go-jsonschema/pkg/codegen"
 
@@ -374,6 +375,41 @@ func init() {
 			on.Cfg.MinSizedInts = true
 			off := baseCase("c15-flag-off", schema, docs, string(pos))
 			pcs = append(pcs, on, off)
+			if (i/stride)%2 == 0 {
+				// the same integer as a DECLARED type: a definition reached through $ref (required / optional member, array
+				// items) — the bounds reach the type chooser through another call site than for an inline member
+				var vals []string
+				for k := range seen {
+					vals = append(vals, k)
+				}
+				sort.Strings(vals)
+				for di, shape := range []string{"required-ref", "optional-ref", "items-ref"} {
+					if di != (i/stride/2)%3 && !c.Thorough() {
+						continue
+					}
+					sch := M{"type": "object", "$defs": M{"N": n.schemaKeys("integer")}}
+					var docs3 []any
+					switch shape {
+					case "required-ref":
+						sch["properties"], sch["required"] = M{"v": M{"$ref": "#/$defs/N"}}, []any{"v"}
+					case "optional-ref":
+						sch["properties"] = M{"v": M{"$ref": "#/$defs/N"}}
+					default:
+						sch["properties"] = M{"v": M{"type": "array", "items": M{"$ref": "#/$defs/N"}}}
+					}
+					for _, k := range vals {
+						if shape == "items-ref" {
+							docs3 = append(docs3, M{"v": []any{json.Number(k)}})
+						} else {
+							docs3 = append(docs3, M{"v": json.Number(k)})
+						}
+					}
+					on3 := baseCase("c15-flag-on", sch, docs3, "definition-"+shape)
+					on3.Cfg.MinSizedInts = true
+					off3 := baseCase("c15-flag-off", sch, docs3, "definition-"+shape)
+					pcs = append(pcs, on3, off3)
+				}
+			}
 			if (i/stride)%3 == 0 {
 				// the same integer as a property written NEXT TO allOf / anyOf, at the root and in a definition: the
 				// schema node is then reachable twice (as a sibling and through the merge)
